@@ -12,7 +12,10 @@ together with the `visit` methods that drive it):
 * an expression yields **exactly one** hoisted call per convertible function in it (`hoist_count`):
   no call is lost, none is duplicated;
 * the call of a function comes **after** the calls hoisted from its own arguments (innermost first)
-  and operands are processed **left to right** (`hoist_innermost_first`, `hoist_left_to_right`).
+  and operands are processed **left to right** (`hoist_innermost_first`, `hoist_left_to_right`);
+* temporaries: the allocator hands out the next name of its kind and moves that counter on
+  (`alloc_next`); an expression takes **exactly one** new temporary per pending function and the
+  counters only grow (`hoist_temps`) - so no name is handed out twice within a statement.
 
 Scope: expressions without a statement object in operand position (`noSE`).  The excluded case is
 the known finding "hoisted call captured by the default-colour call" (HCIRCLE without colour).
@@ -174,5 +177,73 @@ theorem assign_top_level_reuses_target (l : Bool) (v : Expr) (j : Bool) (f : Str
   · have hcr : (pEList args (pExpr v { pre := p }).2).2.crash = none := by rw [c2, c1]
     simp [pStmt, Emit.isFexp, markCrash, hcr]
   · rw [h2, h1]; simp [l1, l2]; omega
+
+/-! ### temporaries: one fresh name per hoisted call -/
+
+/-- the allocator hands out the next name of its kind and moves that counter on: a name is never
+handed out twice while the same register is in use -/
+theorem alloc_next (r : Reg) (s : Bool) :
+    (r.alloc s).1 = (if s then Expr.var ("tmp_" ++ toString (r.nStr + 1) ++ "$") true
+                     else Expr.var ("tmp_" ++ toString (r.nNum + 1)) false)
+    ∧ (r.alloc s).2.nNum = (if s then r.nNum else r.nNum + 1)
+    ∧ (r.alloc s).2.nStr = (if s then r.nStr + 1 else r.nStr) := by
+  cases s <;> simp [Reg.alloc]
+
+def Grows (r r' : Reg) (k : Nat) : Prop :=
+  r.nNum ≤ r'.nNum ∧ r.nStr ≤ r'.nStr ∧ r'.nNum + r'.nStr = r.nNum + r.nStr + k
+
+theorem Grows.refl (r : Reg) : Grows r r 0 := ⟨Nat.le_refl _, Nat.le_refl _, rfl⟩
+
+theorem Grows.trans {a b c : Reg} {m n : Nat} (h1 : Grows a b m) (h2 : Grows b c n) : Grows a c (m + n) :=
+  ⟨Nat.le_trans h1.1 h2.1, Nat.le_trans h1.2.1 h2.2.1, by have := h1.2.2; have := h2.2.2; omega⟩
+
+mutual
+  /-- **exactly one new temporary per pending function, the counters only grow** -/
+  theorem hoist_temps : ∀ (e : Expr) (r : Reg), noSE e = true → Grows r (pExpr e r).2 (pending e)
+    | .lit .., r, _ => by simpa [pExpr, pending] using Grows.refl r
+    | .hex .., r, _ => by simpa [pExpr, pending] using Grows.refl r
+    | .var .., r, _ => by simpa [pExpr, pending] using Grows.refl r
+    | .varptr .., r, _ => by simpa [pExpr, pending] using Grows.refl r
+    | .ctl .., r, _ => by simpa [pExpr, pending] using Grows.refl r
+    | .op .., r, _ => by simpa [pExpr, pending] using Grows.refl r
+    | .stmtExp .., r, h => by simp [noSE] at h
+    | .raw .., r, h => by simp [noSE] at h
+    | .arr v idx s, r, h => by simpa [pExpr, pending] using hoist_tempsL idx r (by simpa [noSE] using h)
+    | .un b op e, r, h => by simpa [pExpr, pending] using hoist_temps e r (by simpa [noSE] using h)
+    | .paren b e s, r, h => by simpa [pExpr, pending] using hoist_temps e r (by simpa [noSE] using h)
+    | .call f args s, r, h => by simpa [pExpr, pending] using hoist_tempsL args r (by simpa [noSE] using h)
+    | .bin b l op r', r, h => by
+        simp only [noSE, Bool.and_eq_true] at h
+        have g1 := hoist_temps l r h.1
+        have g2 := hoist_temps r' (pExpr l r).2 h.2
+        simpa [pExpr, pending] using g1.trans g2
+    | .fexp j f args s v, r, h => by
+        simp only [noSE, Bool.and_eq_true] at h
+        have g1 := hoist_tempsL args r h.1
+        cases v with
+        | none =>
+            have ha := alloc_next (pEList args r).2 s
+            simp only [pExpr, Option.isSome_none, Bool.false_eq_true, ↓reduceIte, pending]
+            obtain ⟨a1, a2, a3⟩ := g1
+            cases s <;> simp only [Grows, Reg.alloc] at * <;> refine ⟨?_, ?_, ?_⟩ <;> simp <;> omega
+        | some v' =>
+            have g2 := hoist_tempsO (some v') (pEList args r).2 h.2
+            simpa [pExpr, pending, pendingO] using g1.trans g2
+  theorem hoist_tempss : ∀ (es : List Expr) (r : Reg), noSEs es = true → Grows r (pExprs es r).2 (pendings es)
+    | [], r, _ => by simpa [pExprs, pendings] using Grows.refl r
+    | e :: es, r, h => by
+        simp only [noSEs, Bool.and_eq_true] at h
+        have g1 := hoist_temps e r h.1
+        have g2 := hoist_tempss es (pExpr e r).2 h.2
+        cases e with
+        | stmtExp s => simp [noSE] at h
+        | _ => simpa [pExprs, pendings] using g1.trans g2
+  theorem hoist_tempsL : ∀ (el : EList) (r : Reg), noSEL el = true → Grows r (pEList el r).2 (pendingL el)
+    | .mk p es, r, h => by simpa [pEList, pendingL] using hoist_tempss es r (by simpa [noSEL] using h)
+    | .raw _, r, h => by simp [noSEL] at h
+  theorem hoist_tempsO : ∀ (o : Option Expr) (r : Reg), noSEO o = true → Grows r (pOptExpr o r).2 (pendingO o)
+    | some e, r, h => by simpa [pOptExpr, pendingO] using hoist_temps e r (by simpa [noSEO] using h)
+    | none, r, _ => by simpa [pOptExpr, pendingO] using Grows.refl r
+end
 
 end CocoVerif.Props.C05
